@@ -70,48 +70,67 @@ def run_case(case):
     cnt["c06_frames_compared"] = 1
     if bad:
         res["violations"].append({"key": "solve_and_simulate_differs", "what": f"frames of 'solve_and_simulate' and 'simulate'(solve(p)) differ in columns {bad}"})
+    # the same function objects called again with other parameters: judged below like the first call
+    runs = [(params, sol, df1)]
+    p2 = gen.perturb_params(rng, params, desc.get("frozen_params", ()))
+    if ref.supported(ref.solve(p2))[0]:
+        try:
+            sol2 = [np.asarray(a) for a in fsolve(dsl.lcm_params(p2))]
+            df3 = simcheck.simulate_once(fsim, p2, init, sol2, seed=seed)
+            df4 = simcheck.simulate_once(fboth, p2, init, None, seed=seed)
+            cnt["c06_second_calls"] = 1
+            bad2 = simcheck.frames_equal(df3, df4, tol=1e-12)
+            cnt["c06_frames_compared"] += 1
+            if bad2:
+                res["violations"].append({"key": "solve_and_simulate_differs", "what": f"second call (other parameters, same function objects): frames differ in columns {bad2}"})
+            runs.append((p2, sol2, df3))
+        except Exception as e:  # noqa: BLE001
+            res["violations"].append({"key": pipeline.exc_key(e, "second_call"), "what": pipeline.exc_text(e)})
     # on-grid rows
     T = ref.T
-    if len(df1) == T * N and all(c in df1.columns for c in ["value"] + ref.states):
-        j = simcheck.judge_panel(ref, params, df1, init, sol, judge_c02=False)
-        valid = j["valid"]
-        cols = {c: np.asarray(df1[c].values).reshape(T, N) for c in ["value"] + ref.states}
-        later = 0
-        for t in range(T):
-            if len(sol) != T or sol[t].shape != ref.lcm_shape(t):
-                res["violations"].append({"key": "solution_shape", "what": f"period {t}: solved array has shape {sol[t].shape if t < len(sol) else None}, layout expects {ref.lcm_shape(t)}"})
-                break
-            full = ref.from_lcm_layout(sol[t], t)
-            idx = []
-            on = valid[t].copy()
-            for s in ref.state_order:
-                v = cols[s][t]
-                if ref.is_disc(s):
-                    idx.append(np.clip(v.astype(int), 0, ref.spec[s]["n"] - 1))
-                else:
-                    g = ref.grid[s]
-                    k = np.argmin(np.abs(np.asarray(v, dtype=float)[:, None] - g[None, :]), axis=1)
-                    on &= np.abs(v - g[k]) <= 1e-12 * (1 + np.abs(g[k]))
-                    idx.append(k)
-            exp = full[tuple(idx)]
-            val = np.asarray(cols["value"][t], dtype=float)
-            n_on = int(on.sum())
-            cnt["c06_ongrid_rows"] = cnt.get("c06_ongrid_rows", 0) + n_on
-            if t > 0:
-                later += n_on
-            with np.errstate(all="ignore"):
-                dev = np.abs(val - exp) / (1 + np.abs(exp))
-            dev = np.where(np.isnan(dev), np.inf, dev)
-            if n_on:
-                res["maxima"]["c06_max_dev"] = max(res["maxima"].get("c06_max_dev", 0.0), float(dev[on].max()))
-                b = on & (dev > bootstrap.TOL)
-                if b.any():
-                    i0 = int(np.nonzero(b)[0][0])
-                    res["violations"].append({"key": "value_differs_from_solution", "what": f"period {t}: {int(b.sum())}/{n_on} on-grid agents report a value that differs from the solved array entry (agent {i0}: value={val[i0]!r}, solved={exp[i0]!r})"})
-        cnt["c06_ongrid_rows_later_periods"] = later
-        res["nontrivial"] = bool(cnt.get("c06_ongrid_rows", 0) > 0 and (later > 0 or T == 1))
-    else:
-        res["violations"].append({"key": "panel_unusable", "what": "frame has wrong size/columns"})
+    later_total = 0
+    for run_i, (params_r, sol, df1) in enumerate(runs):
+        if len(df1) == T * N and all(c in df1.columns for c in ["value"] + ref.states):
+            j = simcheck.judge_panel(ref, params_r, df1, init, sol, judge_c02=False)
+            valid = j["valid"]
+            cols = {c: np.asarray(df1[c].values).reshape(T, N) for c in ["value"] + ref.states}
+            later = 0
+            for t in range(T):
+                if len(sol) != T or sol[t].shape != ref.lcm_shape(t):
+                    res["violations"].append({"key": "solution_shape", "what": f"period {t}: solved array has shape {sol[t].shape if t < len(sol) else None}, layout expects {ref.lcm_shape(t)}"})
+                    break
+                full = ref.from_lcm_layout(sol[t], t)
+                idx = []
+                on = valid[t].copy()
+                for s in ref.state_order:
+                    v = cols[s][t]
+                    if ref.is_disc(s):
+                        idx.append(np.clip(v.astype(int), 0, ref.spec[s]["n"] - 1))
+                    else:
+                        g = ref.grid[s]
+                        k = np.argmin(np.abs(np.asarray(v, dtype=float)[:, None] - g[None, :]), axis=1)
+                        on &= np.abs(v - g[k]) <= 1e-12 * (1 + np.abs(g[k]))
+                        idx.append(k)
+                exp = full[tuple(idx)]
+                val = np.asarray(cols["value"][t], dtype=float)
+                n_on = int(on.sum())
+                cnt["c06_ongrid_rows"] = cnt.get("c06_ongrid_rows", 0) + n_on
+                if t > 0:
+                    later += n_on
+                with np.errstate(all="ignore"):
+                    dev = np.abs(val - exp) / (1 + np.abs(exp))
+                dev = np.where(np.isnan(dev), np.inf, dev)
+                if n_on:
+                    res["maxima"]["c06_max_dev"] = max(res["maxima"].get("c06_max_dev", 0.0), float(dev[on].max()))
+                    b = on & (dev > bootstrap.TOL)
+                    if b.any():
+                        i0 = int(np.nonzero(b)[0][0])
+                        res["violations"].append({"key": "value_differs_from_solution", "what": f"call {run_i + 1}, period {t}: {int(b.sum())}/{n_on} on-grid agents report a value that differs from the solved array entry (agent {i0}: value={val[i0]!r}, solved={exp[i0]!r})"})
+            later_total += later
+            cnt["c06_ongrid_rows_later_periods"] = later_total
+            res["nontrivial"] = bool(cnt.get("c06_ongrid_rows", 0) > 0 and (later > 0 or T == 1))
+        else:
+            res["violations"].append({"key": "panel_unusable", "what": "frame has wrong size/columns"})
     res["status"] = "violated" if res["violations"] else "held"
     res["features"] = {**{k: bool(v) for k, v in realised.items()}, "kind_" + case["kind"]: True}
     res["sig"] = f"{dsl.shape_signature(desc)}#{pipeline.param_hash(params)}"
